@@ -36,6 +36,14 @@ func jsonTypeToXValue(data []byte, valType jsonparser.ValueType) XValue {
 		if err == nil {
 			return NewXText(strVal)
 		}
+
+		// jsonparser rejects some escapes that encoding/json (which validated this document) accepts, e.g. a lone
+		// surrogate, so fall back to that
+		quoted := make([]byte, 0, len(data)+2)
+		quoted = append(append(append(quoted, '"'), data...), '"')
+		if err := json.Unmarshal(quoted, &strVal); err == nil {
+			return NewXText(strVal)
+		}
 	case jsonparser.Number:
 		decimalVal, err := decimal.NewFromString(string(data))
 		if err == nil {
@@ -63,10 +71,22 @@ func jsonToObject(data []byte) *XObject {
 	return NewXLazyObject(func() map[string]XValue {
 		properties := make(map[string]XValue)
 
-		jsonparser.ObjectEach(data, func(key []byte, value []byte, dataType jsonparser.ValueType, offset int) error {
+		err := jsonparser.ObjectEach(data, func(key []byte, value []byte, dataType jsonparser.ValueType, offset int) error {
 			properties[string(key)] = jsonTypeToXValue(value, dataType)
 			return nil
 		})
+
+		// jsonparser rejects some key escapes that encoding/json (which validated this document) accepts, e.g. a lone
+		// surrogate, and stops there, so fall back to that rather than lose the remaining properties
+		if err != nil {
+			var raw map[string]json.RawMessage
+			if json.Unmarshal(data, &raw) == nil {
+				properties = make(map[string]XValue, len(raw))
+				for k, v := range raw {
+					properties[k] = JSONToXValue(v)
+				}
+			}
+		}
 		return properties
 	})
 }
